@@ -88,8 +88,60 @@ pub fn run(id: &'static str, tier: Tier, seed: u64) -> Option<Evidence> {
         "C05" | "C06" | "C07" | "C19" => Some(run_writer(id, tier, seed, &ctx, sh)),
         "C08" | "C09" | "C10" | "C11" | "C15" | "C16" => Some(run_queue(id, tier, seed, &ctx, sh)),
         "C13" | "C14" => Some(run_sockets(id, tier, seed, &ctx, sh)),
+        #[cfg(cadence_verif)]
+        "C18" => Some(run_sched(id, tier, seed, &ctx, sh)),
         _ => None,
     }
+}
+
+#[cfg(cadence_verif)]
+fn run_sched(id: &'static str, tier: Tier, seed: u64, ctx: &Ctx, sh: u32) -> Evidence {
+    use crate::sched::{all_programs, ExhaustiveCampaign, SchedCampaign, SchedCase};
+    let mut ev = Evidence::new(
+        id,
+        "exploration",
+        tier,
+        seed,
+        "thread programs over {set(v), get, is_set} on a fresh SingletonHolder run on real threads under a harness-owned scheduler (scheduling points: start of every call, every atomic operation and every UnsafeCell::get, reported by the cfg(cadence_verif) shim with the Ordering written in the source). Bounded-exhaustive part: every schedule of every program with 2 threads x <=2 ops and 3 threads x 1 op by stateless DFS (thorough adds 2 threads x 3 ops and 3 threads x 2 ops, each cut at 20 000 schedules per program); random part: proptest-generated programs (2..3 threads x 1..3 ops) x schedules. Oracle: write-once register spec with real-time order + vector-clock happens-before check of every cell access. Non-trivial: a reader's load falls inside the LOADING window, or two setters race for the CAS; distinct by (programs, schedule taken).",
+    );
+    ev.assume("single atomic location: sequentially consistent exploration plus the happens-before check covers the outcomes the C11 model allows for this code");
+    ev.assume("cell accesses are classified read/write by comparing the cell bytes at the thread's next scheduling point (all other threads parked)");
+    let w = ctx.w();
+    let _ = w;
+    let ex = ExhaustiveCampaign::new(tier.pick(100_000, 20_000));
+    let mut progs: Vec<SchedCase> = Vec::new();
+    for p in all_programs(2, 2) {
+        progs.push(SchedCase { programs: p, schedule: vec![] });
+    }
+    for p in all_programs(3, 1) {
+        progs.push(SchedCase { programs: p, schedule: vec![] });
+    }
+    if tier == Tier::Thorough {
+        for p in all_programs(2, 3) {
+            if p.iter().any(|t| t.len() == 3) {
+                progs.push(SchedCase { programs: p, schedule: vec![] });
+            }
+        }
+        for p in all_programs(3, 2) {
+            if p.iter().any(|t| t.len() == 2) {
+                progs.push(SchedCase { programs: p, schedule: vec![] });
+            }
+        }
+    }
+    let n_programs = progs.len();
+    let ok = driver::run_list(&ex, &ev, ctx, progs.into_iter(), sh);
+    let scheds = ex.schedules.load(std::sync::atomic::Ordering::Relaxed);
+    ev.set_extra("exhaustive_part", serde_json::json!({
+        "programs": n_programs,
+        "schedules_explored": scheds,
+        "schedules_nontrivial": ex.nontrivial_schedules.load(std::sync::atomic::Ordering::Relaxed),
+        "programs_cut_by_budget": ex.incomplete.load(std::sync::atomic::Ordering::Relaxed),
+    }));
+    ev.set_exhaustive(false);
+    if ok {
+        driver::run_random(&SchedCampaign, &ev, ctx, scale(tier.pick(30_000, 1_000_000)), sh);
+    }
+    ev
 }
 
 fn sgen(transport: Option<Transport>, buffered: Option<bool>, faults: bool, queued_p: f64, max_ops: usize) -> SGen {
@@ -404,5 +456,10 @@ pub fn replay(id: &'static str, campaign: &str, case: &serde_json::Value, tier: 
         }
     }
     try_camp!(ConcSockCampaign);
+    #[cfg(cadence_verif)]
+    {
+        try_camp!(crate::sched::SchedCampaign);
+        try_camp!(crate::sched::ExhaustiveCampaign::new(2_000_000));
+    }
     Err(format!("unknown campaign '{}'", campaign))
 }
